@@ -742,3 +742,136 @@ Theorem lockset_race_free : forall A,
     t1 <> t2 -> a_field a1 = a_field a2 -> a_write a1 || a_write a2 = true ->
     hb tr (length pre) (length pre + 1 + length mid).
 Proof. intros A. apply lockset_race_free_gen. Qed.
+
+(* ------------------------------------------------------------------------------------------ *)
+(** * Known lists with tolerance for renames (DESIGN.md 4.3)
+
+    props/*.v compare [race_pairs] / [handler_writes] of a regenerated table with a list of known
+    entries. An entry names field and function; so that a refactor which only renames does not
+    raise an alarm, a name of the known list that no longer occurs anywhere in the regenerated
+    table matches any name (the rest of the key: read/write, role, locks held must still agree). *)
+
+Definition side_key (a : access) : string :=
+  (if a_write a then "W:" else "R:") ++ role_str (a_role a) ++ ":[" ++ String.concat "," (a_locks a) ++ "]".
+
+Definition has_func (A : list access) (f : string) : bool := existsb (fun a => String.eqb (a_func a) f) A.
+Definition has_field (A : list access) (f : string) : bool := existsb (fun a => String.eqb (a_field a) f) A.
+
+Definition func_matches (A : list access) (f known : string) : bool := String.eqb f known || negb (has_func A known).
+Definition field_matches (A : list access) (f known : string) : bool := String.eqb f known || negb (has_field A known).
+
+(** (function, side key) *)
+Definition kside := (string * string)%type.
+(** (field, side, side) *)
+Definition kpair := (string * kside * kside)%type.
+(** (field, side) *)
+Definition kwrite := (string * kside)%type.
+
+Definition side_matches (A : list access) (a : access) (k : kside) : bool :=
+  String.eqb (side_key a) (snd k) && func_matches A (a_func a) (fst k).
+
+Definition pair_matches (A : list access) (p : access * access) (k : kpair) : bool :=
+  let '(f, k1, k2) := k in
+  field_matches A (a_field (fst p)) f &&
+  ((side_matches A (fst p) k1 && side_matches A (snd p) k2) ||
+   (side_matches A (fst p) k2 && side_matches A (snd p) k1)).
+
+Definition races_known (A : list access) (known : list kpair) : bool :=
+  forallb (fun p => existsb (pair_matches A p) known) (race_pairs A).
+
+Definition write_matches (A : list access) (a : access) (k : kwrite) : bool :=
+  field_matches A (a_field a) (fst k) && side_matches A a (snd k).
+
+Definition writes_known (A : list access) (known : list kwrite) : bool :=
+  forallb (fun a => existsb (write_matches A a) known) (handler_writes A).
+
+Lemma races_known_nil A : races_known A [] = true -> race_pairs A = [].
+Proof.
+  unfold races_known. destruct (race_pairs A) as [|p r]; [reflexivity|]. cbn. discriminate.
+Qed.
+
+Lemma writes_known_nil A : writes_known A [] = true -> handler_writes A = [].
+Proof.
+  unfold writes_known. destruct (handler_writes A) as [|p r]; [reflexivity|]. cbn. discriminate.
+Qed.
+
+(** With an empty known list the lockset theorem applies. *)
+Theorem races_known_nil_race_free : forall A,
+  races_known A [] = true ->
+  forall tr, valid multi_all A tr ->
+  forall pre mid post t1 a1 t2 a2,
+    tr = pre ++ EAcc t1 a1 :: mid ++ EAcc t2 a2 :: post ->
+    t1 <> t2 -> a_field a1 = a_field a2 -> a_write a1 || a_write a2 = true ->
+    hb tr (length pre) (length pre + 1 + length mid).
+Proof. intros A H. apply lockset_race_free, races_known_nil, H. Qed.
+
+(** Every flagged pair that is not excused by the known list is exhibited. *)
+Definition unknown_races (A : list access) (known : list kpair) : list (string * string * string) :=
+  map pair_key (filter (fun p => negb (existsb (pair_matches A p) known)) (race_pairs A)).
+
+(* ------------------------------------------------------------------------------------------ *)
+(** * A flagged pair can really be unordered: a write under a mutex and a read that takes no lock *)
+
+Lemma hb_lt tr i j : hb tr i j -> (i < j)%nat.
+Proof. induction 1; lia. Qed.
+
+Section Witness.
+  Variable w r : access.
+  Variable l : string.
+  Let t1 : tid := (RHandler, 0%nat).
+  Let t2 : tid := (RHandler, 1%nat).
+  Let A := [w; r].
+
+  (** goroutine 1: Lock; write; (goroutine 2: read, no lock); Unlock *)
+  Definition unordered_trace : list event :=
+    [EAcq t1 l Excl; EAcc t1 w; EAcc t2 r; ERel t1 l Excl].
+
+  Hypothesis Hw_role : a_role w = RHandler.
+  Hypothesis Hr_role : a_role r = RHandler.
+  Hypothesis Hw_locks : forall lk, In lk (a_locks w) -> lock_name lk = l /\ lock_mode lk = Excl.
+  Hypothesis Hr_locks : a_locks r = [].
+
+  Lemma unordered_trace_valid : valid multi_all A unordered_trace.
+  Proof.
+    unfold valid, unordered_trace.
+    eexists. econstructor.
+    { apply ms_acq.
+      - cbn; auto.
+      - intros H; discriminate H.
+      - cbn. intros ? ? []. }
+    econstructor.
+    { apply ms_acc.
+      - cbn; auto.
+      - intros H; discriminate H.
+      - left; reflexivity.
+      - symmetry; exact Hw_role.
+      - intros lk Hin. destruct (Hw_locks lk Hin) as [-> ->]. left; reflexivity. }
+    econstructor.
+    { apply ms_acc.
+      - cbn; auto.
+      - intros H; discriminate H.
+      - right; left; reflexivity.
+      - symmetry; exact Hr_role.
+      - rewrite Hr_locks. intros lk []. }
+    econstructor.
+    { apply (ms_rel multi_all A _ t1 l Excl [] []).
+      - cbn; auto.
+      - intros H; discriminate H.
+      - reflexivity. }
+    constructor.
+  Qed.
+
+  Lemma unordered_trace_not_hb_aux : forall i j, hb unordered_trace i j -> i = 1%nat -> j = 2%nat -> False.
+  Proof.
+    intros i j H.
+    induction H as [i j e1 e2 L P1 P2 T|i j u1 u2 lk m1 m2 L P1 P2 X|i j e1 e2 L P1 P2 R1 R2|i j k H1 IH1 H2 IH2];
+      intros Ei Ej; subst.
+    - unfold at_pos, unordered_trace in P1, P2. cbn in P1, P2. inversion P1; inversion P2; subst. cbn in T. discriminate.
+    - unfold at_pos, unordered_trace in P1. cbn in P1. discriminate.
+    - unfold at_pos, unordered_trace in P1. cbn in P1. inversion P1; subst. cbn in R1. discriminate.
+    - apply hb_lt in H1. apply hb_lt in H2. lia.
+  Qed.
+
+  Lemma unordered_trace_not_hb : ~ hb unordered_trace 1 2.
+  Proof. intros H. exact (unordered_trace_not_hb_aux _ _ H eq_refl eq_refl). Qed.
+End Witness.
